@@ -58,6 +58,10 @@ func EncryptMessage(key, data []byte, usage uint32, export bool, e etype.EType) 
 // DecryptMessage decrypts the message provided using the methods specific to the etype provided as defined in RFC 4757.
 // The integrity of the message is also verified.
 func DecryptMessage(key, data []byte, usage uint32, export bool, e etype.EType) ([]byte, error) {
+	// The data must hold at least the checksum and the confounder
+	if len(data) < e.GetHMACBitLength()/8+e.GetConfounderByteSize() {
+		return []byte{}, errors.New("ciphertext too short")
+	}
 	checksum := data[:e.GetHMACBitLength()/8]
 	ct := data[e.GetHMACBitLength()/8:]
 	_, k2, k3 := deriveKeys(key, checksum, usage, export)
